@@ -650,7 +650,7 @@ def execute(history):
                         scale = max(float(e2.abs().max()), 1e-30)
                         # same scale rule as the read-back check: the transform works relative to the (finite) bounds
                         for name2, owner2, raw2, pub2 in plist:
-                            if owner2 is pmod and local == pub2 + "_prior":
+                            if owner2 is pmod:  # (prior names need not follow the <param>_prior pattern, e.g. ConstantMean's mean_prior)
                                 c2 = constraint_of(owner2, raw2)
                                 scale = max(scale, *(float(b.abs().max()) for b in (c2.lower_bound, c2.upper_bound) if finite(b)))
                         # the setter works in the sample's precision (some priors draw float32 samples in a float64 module)
